@@ -6,3 +6,4 @@ import JaxVerif.Properties.C12
 #print axioms JV.C12_generated_good
 #print axioms JV.C12_facts_matter
 #print axioms JV.C12_no_other_state
+#print axioms JV.C12_source_flags
